@@ -127,6 +127,32 @@ func relevantPackages(sp *Specs, prop string) map[string]bool {
 	return out
 }
 
+// funcInSlice: a function is verified in the run of property prop if one of its clauses
+// is tagged prop, or if all of its clauses are untagged / tagged * only.
+func funcInSlice(f *FuncSpec, prop string) bool {
+	if clauseTagged(f.Clauses, prop) {
+		return true
+	}
+	onlyStar := true
+	check := func(cs []*Clause) {
+		for _, c := range cs {
+			for _, t := range c.Tags {
+				if t != "*" {
+					onlyStar = false
+				}
+			}
+		}
+	}
+	check(f.Clauses)
+	for _, l := range f.Loops {
+		if clauseTagged(l.Clauses, prop) {
+			return true
+		}
+		check(l.Clauses)
+	}
+	return onlyStar
+}
+
 func moduleDir(repo, pkg string) (dir, pattern string) {
 	if strings.HasPrefix(pkg, modRoot+"/v2") {
 		rel := strings.TrimPrefix(pkg, modRoot+"/v2")
@@ -161,7 +187,7 @@ func cmdCheck(args []string) int {
 	t0 := time.Now()
 	code, ev := runCheck(o)
 	ev.WallS = time.Since(t0).Seconds()
-	if o.only == "" {
+	if o.only == "" && os.Getenv("VERIF_NOEVIDENCE") == "" {
 		writeEvidence(o, ev)
 	}
 	return code
@@ -249,6 +275,9 @@ func runCheck(o *Options) (int, *Evidence) {
 		}
 		if fsq.Trusted {
 			trusted = append(trusted, fi.name())
+			continue
+		}
+		if !funcInSlice(fsq, o.prop) {
 			continue
 		}
 		x := verifyFunc(w, sp, prog, fi, fsq, o.prop)
@@ -403,6 +432,13 @@ func runCheck(o *Options) (int, *Evidence) {
 				st = append(st, j.res.Status)
 			}
 			fmt.Printf("  %-14s %s %v %.2fs\n", ob.Status, n, st, ob.Seconds)
+			if ob.Status != "discharged" {
+				for _, j := range ob.Queries {
+					if j.res.Status != "unsat" && j.res.Status != "sat" {
+						fmt.Printf("      tried: %v\n      output: %s\n", j.res.Tried, clip(j.res.Output, 300))
+					}
+				}
+			}
 		}
 	}
 	ev.Coverage["obligations"] = nOb
@@ -430,9 +466,6 @@ func runCheck(o *Options) (int, *Evidence) {
 		_ = os.MkdirAll(filepath.Join(o.verif, "specs", "baseline"), 0o755)
 		_ = os.WriteFile(filepath.Join(o.verif, "specs", "baseline", o.prop+".txt"), []byte(strings.Join(ok, "\n")+"\n"), 0o644)
 	}
-	if len(vac) > 0 {
-		return undecided(ev, vac...)
-	}
 	if len(violations) > 0 {
 		for _, v := range violations {
 			fmt.Println(v)
@@ -441,6 +474,9 @@ func runCheck(o *Options) (int, *Evidence) {
 			fmt.Println("NOTE", u)
 		}
 		return 1, ev
+	}
+	if len(vac) > 0 && len(undec) == 0 {
+		return undecided(ev, vac...)
 	}
 	if len(undec) > 0 {
 		return undecided(ev, undec...)
